@@ -9,6 +9,8 @@ import (
 	"strings"
 	"testing"
 	"time"
+	"verif/raceload"
+	"verif/racepass"
 
 	utls "github.com/refraction-networking/utls"
 	"verif/bubble"
@@ -398,4 +400,24 @@ func TestCheck(t *testing.T) {
 			}
 		}
 	}
+}
+
+// ---- free-running race-detector pass (the cooperative explorer cannot see memory-model races) ---------------------------
+
+func TestRace(t *testing.T) {
+	rep := ev.New("C16", "model_checking")
+	defer rep.Write()
+	racepass.Parent(t, rep, "TestRaceWorkload", []string{"pkg/proxyserver", "pkg/metadata", "pkg/hack", "pkg/fingerprint", "pkg/reverseproxy", "fingerproxy."},
+		"unsynchronised concurrent access in the proxy's own code while connections of every kind run at once and the server shuts down")
+}
+
+func TestRaceWorkload(t *testing.T) {
+	if !racepass.IsChild() {
+		t.Skip("only run as a child of TestRace")
+	}
+	rounds := 40
+	if ev.Thorough() {
+		rounds = 200
+	}
+	raceload.Mixed(t, rounds)
 }
